@@ -17,6 +17,7 @@ import tempfile
 import time
 
 VERIF = os.path.dirname(os.path.dirname(os.path.abspath(__file__)))
+OUT = os.environ.get('VERIF_OUT', VERIF)      # evidence/ and replays/ live here (self-test redirects it)
 PY = os.environ.get('VERIF_PYTHON', '/venv/bin/python')
 
 
@@ -121,7 +122,7 @@ def main(argv):
     sys.path.insert(0, VERIF)
     os.environ.setdefault('PYTHONHASHSEED', '0')
     mod = importlib.import_module('vmon.checks.' + prop.lower())
-    os.makedirs(os.path.join(VERIF, 'evidence'), exist_ok=True)
+    os.makedirs(os.path.join(OUT, 'evidence'), exist_ok=True)
     if len(argv) >= 3 and argv[1] == '--replay':
         return replay(prop, mod, argv[2])
     tier = argv[1] if len(argv) > 1 else os.environ.get('VERIF_TIER', 'quick')
@@ -165,7 +166,7 @@ def conclude(prop, mod, tier, seed, nshards, results, problems, extra, t0):
     # violations
     new_violation_files = []
     known_hit = {}
-    repdir = os.path.join(VERIF, 'replays', prop)
+    repdir = os.path.join(OUT, 'replays', prop)
     viol_all = list(m['violations'])
     if extra and extra.get('violations'):
         viol_all.extend(extra['violations'])
@@ -221,7 +222,7 @@ def conclude(prop, mod, tier, seed, nshards, results, problems, extra, t0):
         'wall_s': round(wall, 2),
         'violations': int(n_new),
     }
-    json.dump(ev, open(os.path.join(VERIF, 'evidence', f'{prop}.json'), 'w'), indent=1, default=repr)
+    json.dump(ev, open(os.path.join(OUT, 'evidence', f'{prop}.json'), 'w'), indent=1, default=repr)
 
     for key, text in known.items():
         n = known_hit.get(key, 0)
